@@ -27,6 +27,7 @@ PROP = {
         "thorough": {"gen": [(30000, 45)], "enum": [(3,)]},
         "timeout": 1500,
     }],
+    "direct": [{"component": "mcast", "timeout": 300}],
     "rule": "scripts = 2-8 real sockets on one IO context: sonic.NewPacketConn (bind forms 127.0.0.1:0, :0, empty), "
             "multicast.NewUDPPeer (bind forms :P, :0, 192.0.2.2:P, 192.0.2.2:0, 127.0.0.1:0, <group>:P, <group>:0; receivers share the "
             "port P with SO_REUSEPORT), harness raw sockets (plain receivers on 127.0.0.1 / 192.0.2.2 and an IP_TRANSPARENT sender bound "
@@ -59,6 +60,7 @@ PROP = {
         "addresses are canonicalised to ids",
     ],
     "assumptions": [
+        "multi-homed behaviour (JoinOn / JoinSourceOn on a named interface, SetOutboundIPv4 incl. its failure on an interface without an IPv4 address) is checked by the direct monitor in a private network namespace with three veth interfaces (unshare -rn); where such a namespace cannot be created the monitor reports itself skipped",
         "buffers handed to a read are not empty (OpOk); a zero-length datagram completes with EOF (modelled as is, outside the property)",
         "one read in flight per socket (the library's documented usage; the harness refuses a second one)",
         "this host: `lo` (127.0.0.1) has no MULTICAST flag, so JoinOn/SetOutboundIPv4(\"lo\") fail in resolveMulticastInterface and every "
